@@ -139,6 +139,9 @@ class Engine:
                     # payoff -> [pl, plm], dp = pl - plm // pl: fine process, plm: coarse process
 
             def simulating_one_path(it):
+                # each task sent to a worker carries its own copy of the process, hence of the variates pre-drawn by
+                # the parent: the tasks would all pop the same ones. Draw the variates of this path in the worker.
+                coupling_process.pre_computation(1, product)
                 return it, simulation_path()
 
             def initializer():
